@@ -455,3 +455,13 @@ Proof.
        o_skip_ext_time o_ignore cs_bytes cs_chars cs_cycles cs_items map].
   rewrite !first_some_four. reflexivity.
 Qed.
+
+Lemma bytes_format_level_spec (before flag env after : option bool) :
+  bytes_format_level before flag env after
+  = match first_some [after; flag; env; before] with Some b => b | None => false end.
+Proof. unfold bytes_format_level. rewrite first_some_four. reflexivity. Qed.
+
+Lemma skip_ext_resolution (runner : options) (groups : list (option options)) (bench : option options) :
+  effective_skip_ext (resolve runner groups bench)
+  = match first_some (precedence o_skip_ext_time runner groups bench) with Some b => b | None => false end.
+Proof. unfold effective_skip_ext. rewrite (resolve_proj o_skip_ext_time (fun a b => eq_refl)). reflexivity. Qed.
